@@ -41,13 +41,16 @@ CLAIMED = {
     "C05": dict(
         text="FooterBound/AcceptIff/FooterSeg over the full footer x expected-footer matrix and the footer-segment edit kinds; "
              "replay with prefix/extension/case/last-base64-char footer pairs; every produced token's 4th segment is compared "
-             "with an independently written base64url encoder; core builder object histories (CoreObj) cover footers set and changed between mints.",
+             "with an independently written base64url encoder; core builder object histories (CoreObj) cover footers set and changed between mints; families c05b/c05g (both builders) and c05/c05p "
+             "(both parsers) explore set_footer / set_implicit_assertion with two values and the empty string, reconfigured between builds / parses: "
+             "the built token must be bound to the footer set last (FootBound), a parser authenticates iff its last footer matches (Inv_FootAssert).",
         ref="5 C05", tech="TLA+ model (TLC) + footer-pair matrix replay + independent base64url oracle"),
     "C06": dict(
         text="AssertBound/AcceptIff/Hidden for v3/v4; replay over assertion pairs incl. prefix/extension; direct checks that "
              "token length is independent of the assertion and its bytes (all base64 alignments) never occur in the token; the byte-level "
              "lemma Pae.tla (PAE injective, same-concatenation-different-split) is model-checked in the same run; core builder object "
-             "histories (CoreObj) cover assertions set and changed between mints.",
+             "histories (CoreObj) cover assertions set and changed between mints; families c05b/c05g and c05/c05p (see C05) do the same for "
+             "set_implicit_assertion on builders (AssertBound) and parsers (Inv_FootAssert), v3/v4, incl. resetting to the empty string.",
         ref="5 C06", tech="TLA+ model (TLC, Clear() term analysis) + assertion-pair matrix replay + absence scan"),
     "C07": dict(
         text="ProtoBound over all 56 ordered protocol pairs, verbatim and relabelled, same key bytes where both protocols accept them; "
@@ -70,7 +73,7 @@ CLAIMED.update({
              "numbers the wire nonce of every built token by first occurrence and BuilderTrace requires each build to carry a new "
              "one - repeated builds from one builder object (250 per object), fresh builders, identical and varying claims, all four "
              "local protocols, generic and prelude layers; per-bit frequencies of all nonces are checked inside the specification "
-             "against a Hoeffding bound (false alarm < 2^-64); 8 threads build concurrently from separate builders and the union of their nonces must be duplicate-free (xthread record). Unpredictability in the cryptographic sense is not decidable here.",
+             "against a Hoeffding bound (false alarm < 2^-64); footers of 0..1024 bytes and assertions vary between builder objects; 8 threads build concurrently from separate builders and the union of their nonces must be duplicate-free (xthread record). Unpredictability in the cryptographic sense is not decidable here.",
         ref="5 C10", tech="TLA+ builder model + trace validation of recorded build histories (nonce identity, bit statistics)", note=BUILDER_NOTE),
     "C13": dict(
         text="MC_Builder explores every PasetoBuilder call history over {set exp/iat/nbf/custom, acknowledge, set_footer, "
@@ -94,12 +97,14 @@ CLAIMED.update({
         text="MC_Parser: every check_claim configuration (2 keys x 2 values, up to 2/3 calls) x every sequence of up to 2 parses of "
              "tokens carrying every absent/null/v1/v2 combination under either key, configuration calls also after parses (one parser object "
              "reconfigured and reused), ExpectIff and parse-purity as invariants; executed "
-             "with value pairs differing in type/case/number/nested member and keys differing by one character.",
+             "with value pairs differing in type/case/number/nested member or coinciding under a lossy comparison (u64::MAX vs -1, 2^53 vs +1, NFC vs NFD, "
+             "null vs 'null'), keys differing by one character or being JSON-pointer syntax; longer histories (6 configuration calls, 4 parses) drawn by TLC simulation.",
         ref="5 C15", tech="TLA+ parser model composed with the token model (TLC) + trace validation of executed parser histories", note=PARSER_NOTE),
     "C16": dict(
         text="MC_Parser: validate_claim / extend_validation_claims / check_claim / set_footer configurations x authentic, tampered, "
              "wrong-key, wrong-footer and non-JSON tokens; ValidatorDiscipline as invariant; the harness validators log (key, value) and "
-             "TLC accepts an observation iff some processing order of the claim map explains outcome, named claim and calls.",
+             "TLC accepts an observation iff some processing order of the claim map explains outcome, named claim and calls; longer histories "
+             "(6 configuration calls, 4 parses, reconfiguration between parses) drawn by TLC simulation.",
         ref="5 C16", tech="TLA+ parser model with order nondeterminism (TLC) + trace validation of logged validator calls", note=PARSER_NOTE),
     "C11": dict(
         text="MC_Parser family c11: PasetoParser::default() against every (exp class, nbf class) pair incl. non-string, empty and "
@@ -120,7 +125,8 @@ CLAIMED.update({
              "protocol (PAE expanded to LE64/concat) and checks that each protocol's terms bind exactly its inputs; a ~300-line interpreter "
              "gives the operators their primitive meaning and is pinned to 45 official vectors at every run (pin failure = tool error); "
              "local: byte-identity with try_encrypt and decryption of specification tokens (incl. arbitrary wire nonces); public: "
-             "cross-verification both ways incl. s-negated ECDSA; footer segment iff non-empty.",
+             "cross-verification both ways incl. s-negated ECDSA; footer segment iff non-empty - also on a core builder object re-used with "
+             "another / the empty footer (CoreObj histories, SegOK in CoreObjTrace).",
         ref="5 C08", tech="TLA+ term model of the PASETO algorithms + term evaluator pinned to official vectors (differential)",
         note="Trusted base: the primitive crates shared with the library (no protocol code shared); the official vectors shipped in the "
              "repository's tests (v1.public has none: RSA-PSS is randomised); TLC only prints and sanity-checks the terms."),
